@@ -13,7 +13,11 @@ func ValueToJSON(v *ast.Value) interface{} {
 	}
 	switch v.Kind {
 	case ast.Variable:
-		return map[string]interface{}{"k": "var", "v": v.Raw}
+		et := ""
+		if v.ExpectedType != nil {
+			et = v.ExpectedType.String()
+		}
+		return map[string]interface{}{"k": "var", "v": v.Raw, "et": et}
 	case ast.IntValue:
 		return map[string]interface{}{"k": "int", "v": v.Raw}
 	case ast.FloatValue:
